@@ -46,6 +46,14 @@ def indexed_file(draw, tier, max_records=30, min_records=1):
     if draw(st.integers(0, 2)) > 0:
         ncuts = draw(st.integers(0, 6))
         cuts = sorted(set(draw(st.lists(st.integers(1, max(1, data_len - 1)), min_size=ncuts, max_size=ncuts))))
+        if len(lines) >= 2 and draw(st.integers(0, 2)) == 0:
+            # blocks that end exactly where a record ends (files written with a flush per batch, concatenated files):
+            # a record then starts at offset 0 of its block
+            starts, pos = [], 0
+            for l in lines:
+                starts.append(pos)
+                pos += len(l) + 1
+            cuts = sorted(set(draw(st.lists(st.sampled_from(starts[1:]), min_size=1, max_size=4))))
         comp = {"cuts": cuts, "empty": draw(st.booleans()),
                 "suffix": draw(st.sampled_from([".gz", ".gz", ".bgz", ""]))}  # compression is detected by content, not by name
     return g, {
@@ -139,6 +147,8 @@ def file_classes(case, table):
         bstarts = {u for u, _ in table[1:]}
         if any(b not in starts for b in bstarts):
             cl.append("line_straddles_block")
+        if any(b in starts for b in bstarts):
+            cl.append("record_starts_at_block_start")
     return cl
 
 
